@@ -263,8 +263,10 @@ def gen_cases(ctx):
             a, b = rng.sample(range(L), 2)
             if (min(a, b), max(a, b)) not in [(min(x, y), max(x, y)) for x, y in edges]:
                 edges.append((a, b))
-        cases.append({'shape': 'odd', 'names': names, 'how': 'odd', 'edges': edges,
-                      'keys': sorted(rng.sample(range(0, 3 * L), L))})
+        keys = sorted(rng.sample(range(0, 3 * L), L))
+        if rng.random() < 0.4:
+            rng.shuffle(keys)        # node ids in any order (a .json graph): the last residue need not carry the highest key
+        cases.append({'shape': 'odd', 'names': names, 'how': 'odd', 'edges': edges, 'keys': keys})
     return cases
 
 
@@ -285,6 +287,8 @@ def build_case(c, rng):
     if c['how'] == 'shuffled':
         return build_graph(c['names'], edges, rng, attrs=attrs)
     keys = sorted(rng.sample(range(0, 3 * n + 3), n))
+    if rng.random() < 0.4:
+        rng.shuffle(keys)
     return build_graph(c['names'], edges, rng, keys=keys, attrs=attrs)
 
 
